@@ -18,10 +18,10 @@ timeout 900 /venv/bin/python demo.py > demo_pristine.log 2>&1; rc_p=$?
 git apply "$src/patch.diff" || { echo "$sid: patch does not apply"; exit 3; }
 build; rc_b=$?
 timeout 900 /venv/bin/python demo.py > demo_mut.log 2>&1; rc_m=$?
-timeout 1500 /venv/bin/python -m pytest -q -p no:cacheprovider --timeout=900 --continue-on-collection-errors -x --deselect test/test_columnfile_pandas.py --deselect test/test_fetch_data.py 2>&1 | tail -3 > tests.log
+timeout 1500 /venv/bin/python -m pytest -q -p no:cacheprovider --timeout=900 --continue-on-collection-errors 2>&1 | tail -3 > tests.log
 tests=$(tail -1 tests.log)
 ok=0
-if [ $rc_b -eq 0 ] && [ $rc_p -eq 0 ] && [ $rc_m -ne 0 ] && echo "$tests" | grep -q "^17[0-9] passed\|^179 passed" && ! echo "$tests" | grep -q failed; then ok=1; fi
+if [ $rc_b -eq 0 ] && [ $rc_p -eq 0 ] && [ $rc_m -ne 0 ] && echo "$tests" | grep -q "^15 failed, 179 passed"; then ok=1; fi
 echo "$sid: build=$rc_b demo_pristine=$rc_p demo_mutated=$rc_m tests='$tests' confirmed=$ok"
 if [ $ok -eq 1 ]; then
   out=/verif/seeded/$sid
@@ -39,7 +39,7 @@ if [ $ok -eq 1 ]; then
   "builds": true,
   "demo_on_pristine_exit": $rc_p,
   "demo_on_mutated_exit": $rc_m,
-  "existing_tests_with_change": "$tests (test_columnfile_pandas/test_fetch_data deselected: they fail in the baseline for lack of pandas/network)",
+  "existing_tests_with_change": "$tests (baseline: 15 failed for lack of pandas/network, 179 passed)",
   "how": "tools/confirm_seed.sh in a scratch git worktree of /repo HEAD (removed afterwards)"
  }
 }
